@@ -20,48 +20,92 @@ Proof. apply map_id. Qed.
 Lemma nonempty_s_true p : p <> "" -> nonempty_s p = true.
 Proof. destruct p; [congruence|reflexivity]. Qed.
 
+(* an item that is neither null nor a boolean: the reference prints it when it is bound on its own *)
+Definition item_ok (it : sval) : Prop := match it with VNull | VBool _ => False | _ => True end.
+Lemma filter_printable l : Forall item_ok l -> filter printable l = l.
+Proof.
+  induction 1 as [|x l Hx _ IH]; [reflexivity|]. simpl. rewrite IH. destruct x; try reflexivity; destruct Hx.
+Qed.
+
+(* the values on which StreamFlow and the reference agree for a binding [b]:
+   - an EMPTY list must not come out of a valueFrom under a prefix (cwltool: the bare prefix; StreamFlow: nothing);
+   - a list bound without valueFrom and without itemSeparator must not hold null or boolean items (cwltool binds the
+     items one by one and prints nothing for them; StreamFlow prints None / True / False).
+   Outside: C30_empty_valuefrom_refuted, C30_bool_null_items_refuted. *)
+Definition value_ok (b : binding) (v : value) : Prop :=
+  match v with
+  | Arr [] => b_vf b = VfNone \/ b_prefix b = None
+  | Arr l => b_vf b = VfNone -> b_isep b = None -> Forall item_ok l
+  | Sc _ => True
+  end.
+
+Lemma bind_arr_all f b x l :
+  b_prefix b <> Some "" -> b_isep b = None ->
+  match sf_bind f b (Arr (x :: l)) with
+  | None => False
+  | Some l' => map repr l' = map (q_str (flags_q f)) (spec_pre b ++ map repr (x :: l))
+  end.
+Proof.
+  intros Hp Hs. unfold sf_bind, spec_pre, flags_q, q_str, sf_value_for_command. rewrite Hs.
+  destruct (b_prefix b) as [p|] eqn:EP.
+  - rewrite (nonempty_s_true p) by congruence. cbn [app]. destruct (negb (fst f) || snd f).
+    + change (VStr (quote p) :: sf_escape x :: map sf_escape l) with (map sf_escape (VStr p :: x :: l)).
+      rewrite map_repr_escape. reflexivity.
+    + rewrite map_id. reflexivity.
+  - cbn [app]. destruct (negb (fst f) || snd f).
+    + change (sf_escape x :: map sf_escape l) with (map sf_escape (x :: l)).
+      rewrite map_repr_escape. reflexivity.
+    + rewrite map_id. reflexivity.
+Qed.
+
+Lemma spec_arr_all b x l :
+  b_isep b = None -> value_ok b (Arr (x :: l)) -> spec_generate b (Arr (x :: l)) = spec_pre b ++ map repr (x :: l).
+Proof.
+  intros Hs Hv. unfold spec_generate, spec_pre. rewrite Hs. cbn [value_ok] in Hv.
+  destruct (b_vf b) eqn:V; try reflexivity. rewrite (filter_printable (x :: l)) by (apply Hv; [reflexivity|exact Hs]). reflexivity.
+Qed.
+
 (* CWLCommandTokenProcessor.bind produces, piece for piece, what Builder.generate_arg produces, quoted or not
-   as its flags say; it produces no token exactly when generate_arg produces no argument.  For every value
-   (scalars of every kind, null, arrays of any length) and every binding with a non-empty prefix/itemSeparator. *)
+   as its flags say; it produces no token exactly when generate_arg produces no argument.  For every binding with a
+   non-empty prefix/itemSeparator and every value in [value_ok] (all scalars, null, arrays of any length). *)
 Lemma bind_equiv f b v :
-  b_prefix b <> Some "" -> b_isep b <> Some "" ->
+  b_prefix b <> Some "" -> b_isep b <> Some "" -> value_ok b v ->
   match sf_bind f b v with
   | None => spec_generate b v = []
   | Some l => spec_generate b v <> [] /\ map repr l = map (q_str (flags_q f)) (spec_generate b v)
   end.
 Proof.
-  intros Hp Hs. unfold sf_bind, spec_generate, flags_q, q_str.
-  destruct b as [pos pre sep isep qu vf]; cbn [b_prefix b_sep b_isep] in *.
-  assert (Hp' : forall p, pre = Some p -> nonempty_s p = true)
-    by (intros p ->; apply nonempty_s_true; congruence).
-  assert (Hs' : forall s, isep = Some s -> nonempty_s s = true)
-    by (intros s ->; apply nonempty_s_true; congruence).
-  destruct v as [[|[|]|z|s|dn di df de]|[|x l]]; cbn [sf_value_for_command].
-  - reflexivity.
-  - destruct pre as [p|]; [rewrite (Hp' p eq_refl)|]; cbn.
-    + split; [discriminate|]. destruct (negb (fst f) || snd f); reflexivity.
+  intros Hp Hs Hv.
+  destruct v as [sv|[|x l]].
+  - (* scalars *)
+    clear Hv. unfold sf_bind, spec_generate, flags_q, q_str.
+    destruct b as [pos pre sep isep qu vf]; cbn [b_prefix b_sep b_isep b_vf] in *.
+    assert (Hp' : forall p, pre = Some p -> nonempty_s p = true)
+      by (intros p ->; apply nonempty_s_true; congruence).
+    destruct sv as [|[|]|z|s|dn di df de]; cbn [sf_value_for_command].
     + reflexivity.
-  - destruct pre; reflexivity.
-  - destruct pre as [p|]; [destruct sep|]; cbn; (split; [try discriminate; destruct sep; discriminate|]);
-      destruct (negb (fst f) || snd f); try reflexivity; destruct sep; reflexivity.
-  - destruct pre as [p|]; [destruct sep|]; cbn; (split; [try discriminate; destruct sep; discriminate|]);
-      destruct (negb (fst f) || snd f); try reflexivity; destruct sep; reflexivity.
-  - destruct pre as [p|]; [destruct sep|]; cbn; (split; [try discriminate; destruct sep; discriminate|]);
-      destruct (negb (fst f) || snd f); try reflexivity; destruct sep; reflexivity.
-  - destruct isep; reflexivity.
-  - destruct isep as [s|].
-    + rewrite (Hs' s eq_refl).
-      destruct pre as [p|]; [destruct sep|]; cbn; (split; [try discriminate; destruct sep; discriminate|]);
+    + destruct pre as [p|]; [rewrite (Hp' p eq_refl)|]; cbn.
+      * split; [discriminate|]. destruct (negb (fst f) || snd f); reflexivity.
+      * reflexivity.
+    + destruct pre; reflexivity.
+    + destruct pre as [p|]; [destruct sep|]; cbn; (split; [try discriminate; destruct sep; discriminate|]);
         destruct (negb (fst f) || snd f); try reflexivity; destruct sep; reflexivity.
-    + destruct pre as [p|]; [rewrite (Hp' p eq_refl)|]; cbn [app].
-      * split; [discriminate|]. destruct (negb (fst f) || snd f).
-        -- change (VStr (quote p) :: sf_escape x :: map sf_escape l) with (map sf_escape (VStr p :: x :: l)).
-           rewrite map_repr_escape. reflexivity.
-        -- rewrite map_id. reflexivity.
-      * split; [discriminate|]. destruct (negb (fst f) || snd f).
-        -- change (sf_escape x :: map sf_escape l) with (map sf_escape (x :: l)).
-           rewrite map_repr_escape. reflexivity.
-        -- rewrite map_id. reflexivity.
+    + destruct pre as [p|]; [destruct sep|]; cbn; (split; [try discriminate; destruct sep; discriminate|]);
+        destruct (negb (fst f) || snd f); try reflexivity; destruct sep; reflexivity.
+    + destruct pre as [p|]; [destruct sep|]; cbn; (split; [try discriminate; destruct sep; discriminate|]);
+        destruct (negb (fst f) || snd f); try reflexivity; destruct sep; reflexivity.
+  - (* the empty list *)
+    cbn [value_ok] in Hv. unfold sf_bind, spec_generate. cbn [sf_value_for_command].
+    destruct Hv as [Hv|Hv]; rewrite Hv; [reflexivity|]. destruct (b_vf b); reflexivity.
+  - destruct (b_isep b) as [s|] eqn:ES.
+    + (* joined *)
+      clear Hv. unfold sf_bind, spec_generate, flags_q, q_str. rewrite ES.
+      rewrite (nonempty_s_true s) by congruence. cbn [sf_value_for_command].
+      destruct (b_prefix b) as [p|]; [destruct (b_sep b)|]; cbn; (split; [try discriminate; destruct (b_sep b); discriminate|]);
+        destruct (negb (fst f) || snd f); try reflexivity; destruct (b_sep b); reflexivity.
+    + rewrite (spec_arr_all b x l ES Hv). pose proof (bind_arr_all f b x l Hp ES) as H.
+      destruct (sf_bind f b (Arr (x :: l))); [|destruct H]. split; [|exact H].
+      destruct (spec_pre b); discriminate.
 Qed.
 
 (* ================================================================ sorting two lists in lock-step *)
@@ -208,11 +252,14 @@ Definition input_ok (shell : bool) (i : input) : Prop :=
 Definition tool_ok (t : tool) : Prop :=
   Forall binding_ok (t_args t) /\ Forall (input_ok (t_shell t)) (t_inputs t).
 (* the input object respects the declared types as far as arrays go *)
-Definition item_ok (it : sval) : Prop := match it with VNull | VBool _ => False | _ => True end.
 Definition input_typed (j : job) (i : input) : Prop :=
   (i_arr i = false -> forall l, lookup j (i_name i) <> Arr l) /\
-  (i_item i <> None -> forall l, lookup j (i_name i) = Arr l -> Forall item_ok l).
-Definition job_typed (t : tool) (j : job) : Prop := Forall (input_typed j) (t_inputs t).
+  (i_item i <> None -> forall l, lookup j (i_name i) = Arr l -> Forall item_ok l) /\
+  (i_item i = None -> forall b, i_bind i = Some b -> value_ok b (eval_vf b j (lookup j (i_name i)))).
+(* ... and every binding meets a value in [value_ok] (no null/boolean items printed one by one, no empty list out of a
+   valueFrom under a prefix) *)
+Definition job_typed (t : tool) (j : job) : Prop :=
+  Forall (input_typed j) (t_inputs t) /\ Forall (fun b => value_ok b (eval_vf b j (Sc VNull))) (t_args t).
 
 Definition key_of (k : skey) : Z * option string :=
   match k with KArg p _ => (p, None) | KIn p n => (p, Some n) | KItem _ p n => (p, Some n) end.
@@ -256,10 +303,11 @@ Qed.
 (* one binding: no entry on either side, or one entry on each, related *)
 Lemma entry_equiv k q f b v name :
   binding_ok b -> flags_q f = q -> key_of k = (b_pos b, name) -> items_fresh b v = false \/ q = true ->
+  value_ok b v ->
   Forall2 Rel (spec_entry k (spec_gen_pieces q b v))
               (match sf_bind f b v with Some l => [(name, b_pos b, l)] | None => [] end).
 Proof.
-  intros [Hp Hs] Hq Hk Hf. rewrite (gen_pieces_uniform _ _ _ Hf). pose proof (bind_equiv f b v Hp Hs) as H.
+  intros [Hp Hs] Hq Hk Hf Hvo. rewrite (gen_pieces_uniform _ _ _ Hf). pose proof (bind_equiv f b v Hp Hs Hvo) as H.
   destruct (sf_bind f b v) as [l|].
   - destruct H as [Hne Hm]. unfold spec_entry. destruct (spec_generate b v) as [|s r] eqn:E; [congruence|].
     cbn [map]. constructor; [|constructor]. split; [cbn; symmetry; exact Hk|].
@@ -274,12 +322,12 @@ Proof.
     destruct (b_isep b); reflexivity.
 Qed.
 
-Lemma args_rel t j : forall l i, Forall binding_ok l ->
+Lemma args_rel t j : forall l i, Forall binding_ok l -> Forall (fun b => value_ok b (eval_vf b j (Sc VNull))) l ->
   Forall2 Rel (spec_args t j i l) (flat_map (sf_arg_token t j) l).
 Proof.
-  induction l as [|b r IH]; intros i Hok; [constructor|].
-  inversion Hok; subst. cbn [spec_args flat_map]. apply Forall2_app; [|apply IH; assumption].
-  unfold sf_arg_token. apply entry_equiv; [assumption|reflexivity|reflexivity|].
+  induction l as [|b r IH]; intros i Hok Hvo; [constructor|].
+  inversion Hok; subst. inversion Hvo; subst. cbn [spec_args flat_map]. apply Forall2_app; [|apply IH; assumption].
+  unfold sf_arg_token. apply entry_equiv; [assumption|reflexivity|reflexivity| |assumption].
   left. apply fresh_scalar_vf. right. reflexivity.
 Qed.
 
@@ -304,7 +352,7 @@ Proof.
   rewrite sf_item_tokens_cons, flat_map_app, map_app.
   change (flat_map (spec_item_pieces t ib) (it :: r)) with (spec_item_pieces t ib it ++ flat_map (spec_item_pieces t ib) r).
   rewrite map_app. f_equal; [|apply IH; assumption].
-  pose proof (bind_equiv (t_shell t, opt_default true (b_quote ib)) ib (Sc it) Hp Hs) as H.
+  pose proof (bind_equiv (t_shell t, opt_default true (b_quote ib)) ib (Sc it) Hp Hs I) as H.
   destruct (sf_bind _ ib (Sc it)) as [v|].
   - destruct H as [_ Hm]. cbn [flat_map snd app]. rewrite app_nil_r, Hm. unfold spec_item_pieces.
     rewrite render_pieces. reflexivity.
@@ -330,7 +378,7 @@ Lemma inputs_rel t j : forall l, Forall (input_ok (t_shell t)) l -> Forall (inpu
   Forall2 Rel (flat_map (spec_input' t j) l) (flat_map (sf_input_token' t j) l).
 Proof.
   induction l as [|i r IH]; intros Hok Hty; [constructor|].
-  inversion Hok as [|? ? [_ Hi] Hr]; subst. inversion Hty as [|? ? [Ht Hit] Htr]; subst.
+  inversion Hok as [|? ? [_ Hi] Hr]; subst. inversion Hty as [|? ? (Ht & Hit & Hvo) Htr]; subst.
   cbn [flat_map]. apply Forall2_app; [|apply IH; assumption].
   unfold spec_input', sf_input_token'. destruct (i_item i) as [ib|] eqn:EI.
   - (* binding on the items, under a binding on the array *)
@@ -353,7 +401,7 @@ Proof.
       constructor; [|constructor]. split; [reflexivity|]. cbn [snd]. symmetry. exact HV.
   - unfold spec_input, sf_input_token. destruct (i_bind i) as [b|]; [|constructor].
     destruct Hi as [Hb Hq]. cbn zeta. destruct (is_null (lookup j (i_name i))); [constructor|].
-    apply entry_equiv; [assumption|reflexivity|reflexivity|].
+    apply entry_equiv; [assumption|reflexivity|reflexivity| |apply Hvo; reflexivity].
     destruct (items_fresh b (eval_vf b j (lookup j (i_name i)))) eqn:E; [right|left; reflexivity].
     unfold items_fresh, eval_vf in E. destruct (b_vf b) eqn:V; try discriminate.
     destruct (b_isep b) eqn:S; try discriminate.
@@ -405,9 +453,9 @@ Qed.
 Lemma bindings_ord2 t j : tool_ok t -> job_typed t j ->
   ord2 spec_lt fst sf_lt tok_key Rel (spec_bindings t j) (sf_tokens t j).
 Proof.
-  intros [Ha Hi] Hty. apply ord2_from with (E := Ekey).
+  intros [Ha Hi] [Hty Hta]. apply ord2_from with (E := Ekey).
   - intros; apply lt_agree; assumption.
-  - apply Forall2_app; [apply args_rel; exact Ha|apply inputs_rel; [exact Hi|exact Hty]].
+  - apply Forall2_app; [apply args_rel; [exact Ha|exact Hta]|apply inputs_rel; [exact Hi|exact Hty]].
   - apply ordpairs_app; [apply args_ord|apply kin_ord; intros; eapply inputs_keys; eauto|].
     intros x y Hx Hy. destruct (args_keys _ _ _ _ _ Hx) as (p & k & E & _).
     destruct (inputs_keys _ _ _ _ Hi Hy) as (p' & n & E' & Hn). unfold Ekey. rewrite E, E'. exact Hn.
@@ -599,4 +647,38 @@ Proof.
     replace (Z.to_nat (- Z.of_nat (String.length fp) + Z.of_nat (String.length (String c r) + String.length fp)))
       with (String.length (String c r)) by lia.
     rewrite stake_app, sdrop_app. reflexivity.
+Qed.
+
+(* ================================================================ the item binding's position under an array binding *)
+Definition set_pos (b : binding) (p : Z) : binding :=
+  mkB p (b_prefix b) (b_sep b) (b_isep b) (b_quote b) (b_vf b).
+
+Lemma item_values_pos t ib x p l :
+  flat_map (fun c : ctoken => snd c) (sf_item_tokens t (set_pos ib p) x l)
+  = flat_map (fun c : ctoken => snd c) (sf_item_tokens t ib x l).
+Proof.
+  induction l as [|it r IH]; [reflexivity|]. rewrite !sf_item_tokens_cons, !flat_map_app. f_equal; [|exact IH].
+  assert (E : sf_bind (t_shell t, opt_default true (b_quote (set_pos ib p))) (set_pos ib p) (Sc it)
+              = sf_bind (t_shell t, opt_default true (b_quote ib)) ib (Sc it)) by (destruct ib; reflexivity).
+  rewrite E. destruct (sf_bind _ ib (Sc it)); reflexivity.
+Qed.
+
+Lemma item_pieces_pos t ib p l :
+  flat_map (spec_item_pieces t (set_pos ib p)) l = flat_map (spec_item_pieces t ib) l.
+Proof. apply flat_map_ext. intros it. destruct ib; reflexivity. Qed.
+
+(* with a binding on the array itself, the position written on the ITEM binding changes nothing, in either runner:
+   the array's prefix, then the items in index order *)
+Lemma item_position_irrelevant t j i ib ob p :
+  i_bind i = Some ob ->
+  spec_item_input t j i (set_pos ib p) = spec_item_input t j i ib /\
+  sf_item_input t j i (set_pos ib p) = sf_item_input t j i ib.
+Proof.
+  intros H. unfold spec_item_input, sf_item_input. rewrite H. destruct (lookup j (i_name i)) as [?|l]; [split; reflexivity|].
+  split.
+  - destruct l; [reflexivity|]. rewrite item_pieces_pos. reflexivity.
+  - pose proof (item_values_pos t ib (i_name i) p l) as E.
+    match goal with |- match sf_bind _ _ (Arr ?a) with _ => _ end = match sf_bind _ _ (Arr ?b) with _ => _ end =>
+      assert (Hab : a = b) by exact E; rewrite Hab end.
+    reflexivity.
 Qed.
